@@ -980,6 +980,7 @@ def observe(ctx, chk, prefix, keys, with_msg=False):
 
 
 def run(ctx, chk):
+    shared.rule_mutable_defaults(ctx, chk, "C12.0:defaults", ("conditionalrewards.py",))      # a call must not depend on the calls made before it
     r1b_module_iterators(ctx, chk)
     rec = r1_keys(ctx, chk)
     r2_mode_reaches_solver(ctx, chk)
